@@ -555,8 +555,15 @@ pub unsafe extern "C" fn pipe(fds: *mut c_int) -> c_int {
     do_pipe(fds, 0)
 }
 
+/// when set, pipe2() with flags answers ENOSYS (a kernel without it) while pipe() works
+pub static PIPE2_ENOSYS: AtomicBool = AtomicBool::new(false);
+
 #[no_mangle]
 pub unsafe extern "C" fn pipe2(fds: *mut c_int, flags: c_int) -> c_int {
+    if flags != 0 && PIPE2_ENOSYS.load(Relaxed) && !IN_CHILD.load(Relaxed) {
+        set_errno(libc::ENOSYS);
+        return -1;
+    }
     do_pipe(fds, flags)
 }
 
